@@ -130,7 +130,7 @@ let dispatch cmd a =
            (Array.to_list (Array.sub a 2 (Array.length a - 2))) in
        let (s, outs) = List.fold_left (fun (s, outs) (c, same) ->
            let (s', o) = apoints ap s c same in (s', outs @ [unit_res o])) (s0, []) chunks in
-       String.concat "," outs ^ " " ^ res tok_of_bytes (aclose s))
+       String.concat "," outs ^ " " ^ res tok_of_bytes (aclose_t s))
   | "read_file" ->
     res (fun lf -> let rh = lf.lf_h in String.concat " " [tok_of_assoc rh.rh_fields; tok_of_vlrs rh.rh_vlrs;
                     (match rh.rh_evlrs with None -> "none" | Some l -> "some:" ^ tok_of_vlrs l);
